@@ -37,6 +37,11 @@ def hostile(t, frags=None):
     if k == 4:
         return '<%s%s>' % (t.choice(['http:', 'foo:', 'mailto:', 'a+b:', 'x@', 'made-up-scheme:']), p1)
     if k == 5:
+        if t.chance(170):
+            # a well-formed e-mail autolink: the local part may hold ! # $ % & ' * + / = ? ^ _ ` { | } ~ -
+            ok = [f for f in (frags or PAYLOAD) if f and all(c.isalnum() and c.isascii() or c in ".!#$%&'*+/=?^_`{|}~-" for c in f)]
+            local = ''.join(t.choice(ok) for _ in range(t.between(1, 4))).strip('.') or 'a'
+            return '<%s@%s>' % (local, t.choice(['b.c', 'example.com', 'x-y.org']))
         return '<%s@%s>' % (payload(t, 1, 3, no_space=True, frags=frags), payload(t, 1, 3, no_space=True, frags=frags))
     if k == 6:
         return '%s%s\ncode %s\n%s' % (t.choice(['```', '~~~', '````']), p2, p3, t.choice(['```', '~~~', '````']))
